@@ -82,6 +82,17 @@ def cases(run):
                     if st == "." and len(blocks) > 2:
                         continue
                     yield from _ops_for(kind, st, blocks, run)
+    # relative-location form: all ordered pairs of small layouts
+    pg = 3 if run.tier == "quick" else 4
+    small = list(gen_loc.layouts_exhaustive(2, pg))
+    for a in small:
+        for b in small:
+            for sa in "+-":
+                for sb in "+-":
+                    ka = "S" if len(a) == 1 else "C"
+                    kb = "S" if len(b) == 1 else "C"
+                    yield f"locrel {enc_loc(ka, sa, a)} {enc_loc(kb, sb, b)} {run.rng.choice('01')}"
+    run.count("locrel-pairs", len(small) ** 2 * 4)
     run.exhaustive = True
     # random larger layouts
     n = 150 if run.tier == "quick" else 4000
@@ -100,6 +111,10 @@ def cases(run):
             a = run.rng.randint(0, ln)
             b = run.rng.randint(a, ln)
             yield f"relint {loc} {a} {b} {run.rng.choice('+-.')}"
+        if scale <= 5000:
+            other = gen_loc.random_layout(run.rng, max_blocks=6, max_coord=scale, p_overlap=0.05)
+            yield f"locrel {loc} {enc_loc('C', run.rng.choice(STRANDS), other)} {run.rng.choice('01')}"
+            yield f"locrel {enc_loc('C', run.rng.choice(STRANDS), other)} {loc} {run.rng.choice('01')}"
     # many-block location (F-C19c regression: one recursive call per block)
     big = [(3 * i, 3 * i + 2) for i in range(1500)]
     for st in STRANDS:
